@@ -56,6 +56,14 @@ func (a *AdvRefs) Encode(w io.Writer) error {
 		}
 	}
 
+	// The first-line ref is skipped by the loop below, so its peeled
+	// entry has to be written here, right after the first line.
+	if hash, ok := peeled[firstName]; ok && firstName != "" {
+		if _, err := pktline.Writef(w, "%s %s^{}\n", hash.String(), firstName); err != nil {
+			return err
+		}
+	}
+
 	// Sort non-peeled refs (excluding HEAD which was already written)
 	sorted := make([]*plumbing.Reference, 0, len(a.References))
 	for _, ref := range a.References {
